@@ -245,10 +245,14 @@ def run_spec(spec, props=("C18",)):
         A.execs = 1; A.evals = 1; A.states.add(nrej); A.trans.add(nrej); A.nontrivial.add(nrej)
         try:
             with Poison():
-                r = run_once(sim, lambda orc: ld.choose_random(), prefix, close_loops=False, heap=False)
+                r = run_once(sim, lambda orc: ld.choose_random(), prefix, close_loops=False, heap=False, allow_short=True)
             ntry = sum(1 for t in r.trace if t[0] == "choice")
             A.outcomes.add(ntry)
-            if r.exc is not None:
+            kinds = [t[0] for t in r.trace]
+            protocol = len(kinds) >= 2 and len(kinds) % 2 == 0 and all(kinds[i] == "choice" and kinds[i + 1] == "U" for i in range(0, len(kinds), 2))
+            if r.short is not None and not protocol:
+                A.count["other_algorithm"] = 1      # not a propose/test loop: the scheduled answers mean nothing to it (its draws are still poisoned-source free)
+            elif r.exc is not None:
                 A.add(V("C18", "_ListDict_.choose_random", "rejection", "exception", "after %d rejections choose_random raised %r" % (nrej, r.exc)))
             elif ntry < nrej:
                 A.add(V("C18", "_ListDict_.choose_random", "rejection", "gives_up", "the rejection loop stopped asking `random` after %d attempts (%d rejections were scheduled): the result no longer comes from the seeded generators" % (ntry, nrej)))
